@@ -202,6 +202,7 @@ type wcase struct {
 	pieces    []int // lengths of the pieces the writer writes (sum = len(stdin)); nil: all at once
 	pauses    []int // milliseconds the writer sleeps before each piece
 	lateClose int   // milliseconds between the last piece and the close
+	limits    c10Limits // resource limits of the main run (the single-file runs of the oracle have none)
 	fdrel     bool // tree must be created with directory-relative system calls (paths beyond PATH_MAX)
 	waitsOn   bool // an argument names a FIFO: the run is expected to wait for a writer; short timeout
 }
@@ -471,6 +472,7 @@ type runSpec struct {
 	deadline  time.Duration // 0: the default
 	expected  bool          // blocking is the expected outcome (a FIFO named as an argument)
 	unpriv    bool          // run as an unprivileged user (the harness is root)
+	limits    c10Limits
 	bin       string
 }
 
@@ -602,6 +604,11 @@ func (e *c10env) run(sp *runSpec) runObs {
 	}
 	cmd := exec.CommandContext(ctx, bin)
 	cmd.Args = append([]string{c10Argv0}, sp.argv...) // a fixed os.Args[0]: case inputs must not depend on the scratch directory
+	if script := sp.limits.script(); script != "" {
+		// lowered resource limits: set by the shell, which then becomes the tool (os.Args[0] is the
+		// binary's path here: these cases print neither usage nor version)
+		cmd = exec.CommandContext(ctx, "/bin/sh", append([]string{"-c", script + `exec "$0" "$@"`, bin}, sp.argv...)...)
+	}
 	cmd.Dir = sp.cwd
 	cmd.Env = append(os.Environ(), "LC_ALL=en_US.UTF-8", "LANG=en_US.UTF-8")
 	if sp.unpriv {
@@ -855,7 +862,7 @@ func (e *c10env) runCase(idx int, wc *wcase) (Sx, Sx, error) {
 			return nil, nil, fmt.Errorf("materialise: %v", err)
 		}
 	}
-	sp := &runSpec{cwd: cwd, argv: wc.argv, stdin: wc.stdin, mode: wc.stdinMode, pieces: wc.pieces, pauses: wc.pauses,
+	sp := &runSpec{cwd: cwd, argv: wc.argv, stdin: wc.stdin, mode: wc.stdinMode, pieces: wc.pieces, pauses: wc.pauses, limits: wc.limits,
 		lateClose: wc.lateClose, unpriv: unpriv}
 	if unpriv {
 		sp.bin = e.pubBin
@@ -911,6 +918,9 @@ func (e *c10env) runCase(idx int, wc *wcase) (Sx, Sx, error) {
 	}
 	delivery := SL{I(wc.stdinMode), pieces, pauses, I(wc.lateClose)}
 	input := SL{S(c10Argv0), args, SB(wc.stdin), listSx(wc.tree), oracle, delivery}
+	if wc.limits != (c10Limits{}) {
+		input = append(input, SL{I(wc.limits.nofile), I(wc.limits.stackKB), I(wc.limits.vmemKB)})
+	}
 	return input, obs.sx(), nil
 }
 
@@ -1463,6 +1473,9 @@ func genC10(c *Ctx) {
 
 	// ---- order-sensitive families: what one file leaves behind must not reach the next ----
 	c10OrderCases(c, add)
+
+	// ---- lowered resource limits: what a scan holds on to is bounded, whatever the tree's width and depth ----
+	c10LimitCases(c, add)
 
 	// ---- random trees ----
 	nTrees := 260
